@@ -20,7 +20,7 @@ bool g_ev_written; int g_ev_kind; const vstr* g_ev_src; size_t g_ev_koff, g_ev_k
 size_t g_nmap, g_ni, g_nj, g_nsz, g_pk; bool g_nused;
 int g_wit_kind; size_t g_wit_i, g_wit_j; bool g_wit_used;
 bool g_present, g_pkused, g_njused; ArgVec* g_vals;
-const vstr C17_empty_string; ArgVec C17_empty_vec;
+vstr C17_empty_string; char C17_empty_chars[1]; ArgVec C17_empty_vec;   /* Arguments::empty_string: a valid empty std::string */
 
 #define PRELUDE \
   Arguments* self; ArgVec* vals; IdentT in_id; \
@@ -30,11 +30,12 @@ const vstr C17_empty_string; ArgVec C17_empty_vec;
   g_endoff = in_endoff; g_size = in_size; g_neg = in_neg; g_ovf = in_ovf; g_mag = in_mag; g_stopch = in_stopch; g_fval = in_fval; \
   verif_errno = in_errno; g_ncalls = 0; g_base = -1; \
   C17_empty_vec.size = 0; C17_empty_vec.data = 0; \
+  C17_empty_chars[0] = 0; C17_empty_string.data = C17_empty_chars; C17_empty_string.size = 0; C17_empty_string.cap = 1; \
   verif_exc = EXC_none;
 
 #if !C17_FLOAT
 void h_get_int(void) { PRELUDE; int in_format; GI_NAME(self, in_id, in_format); VERIF_REACH(); }
 void h_get_int_default(void) { PRELUDE; int in_format; RetT in_default; GID_NAME(self, in_id, in_default, in_format); VERIF_REACH(); }
 #else
-void h_get_float(void) { PRELUDE; C17_OPT in_default; GF_NAME(self, in_id, in_default); VERIF_REACH(); }
+void h_get_float(void) { PRELUDE; bool in_has_default; RetT in_defval; C17_OPT dflt; dflt.has_value = in_has_default; dflt.value = in_defval; GF_NAME(self, in_id, dflt); VERIF_REACH(); }
 #endif
